@@ -8,8 +8,8 @@ EXTENDS LineTables, TLC, Json, IOUtils, TLCExt
 
 Cfg == JsonDeserialize(IOEnv.GEN_CFG)      \* [fmts: seq of fmt, maxlen, export]
 
-VARIABLES fmt, tab, clen, first, n, done
-vars == <<fmt, tab, clen, first, n, done>>
+VARIABLES fmt, tab, clen, first, n, done, intent, wline
+vars == <<fmt, tab, clen, first, n, done, intent, wline>>
 
 Fmts == {Cfg.fmts[i] : i \in 1..Len(Cfg.fmts)}
 
@@ -25,14 +25,20 @@ Enc(code, len) == 128 + code * 8 + (len - 1)
 UVar(v) == IF v < 64 THEN <<v>> ELSE IF v < 4096 THEN <<64 + (v % 64), v \div 64>> ELSE <<64 + (v % 64), 64 + ((v \div 64) % 64), v \div 4096>>
 SEnc(d) == IF d < 0 THEN UVar((0 - d) * 2 + 1) ELSE UVar(d * 2)
 Lens == {1, 2, 8}
-LocEntries ==
-       {<<Enc(c, l), b2>> : c \in {0, 5, 9}, l \in Lens, b2 \in {0, 19, 127}}                      \* short
-  \cup {<<Enc(c, l), 0, 7>> : c \in {10, 11, 12}, l \in {1, 3}} \cup {<<Enc(11, 1), 127, 127>>}    \* one line
-  \cup {<<Enc(13, l)>> \o SEnc(d) : l \in {1, 4}, d \in {0, 1, -1, 40, -40, 3000, -3000}}           \* no columns
-  \cup {<<Enc(14, l)>> \o SEnc(d) \o UVar(e) \o UVar(c1) \o UVar(c2) :
+(* each 3.11 entry is written from an intent: [b bytes, d line delta, nl no-location, n code units, el end-line delta, c1, c2] *)
+LE(bs, d, nl, nu, el, c1, c2) == [b |-> bs, d |-> d, nl |-> nl, n |-> nu, el |-> el, c1 |-> c1, c2 |-> c2]
+LocIntents ==
+       {LE(<<Enc(c, l), b2>>, 0, FALSE, l, 0, c * 8 + ((b2 \div 16) % 8), c * 8 + ((b2 \div 16) % 8) + (b2 % 16)) :
+            c \in {0, 5, 9}, l \in Lens, b2 \in {0, 19, 127}}                                                        \* short
+  \cup {LE(<<Enc(c, l), 0, 7>>, c - 10, FALSE, l, 0, 0, 7) : c \in {10, 11, 12}, l \in {1, 3}}
+  \cup {LE(<<Enc(11, 1), 127, 127>>, 1, FALSE, 1, 0, 127, 127)}                                                       \* one line
+  \cup {LE(<<Enc(13, l)>> \o SEnc(d), d, FALSE, l, 0, None, None) : l \in {1, 4}, d \in {0, 1, -1, 40, -40, 3000, -3000}}  \* no columns
+  \cup {LE(<<Enc(14, l)>> \o SEnc(d) \o UVar(e) \o UVar(c1) \o UVar(c2), d, FALSE, l, e,
+            IF c1 = 0 THEN None ELSE c1 - 1, IF c2 = 0 THEN None ELSE c2 - 1) :
             l \in {1, 2}, d \in {0, -2, 70}, e \in {0, 100},
             c1 \in (IF Cfg.rich = 1 THEN {0, 1, 64, 5000} ELSE {0, 64}), c2 \in (IF Cfg.rich = 1 THEN {0, 9, 4096} ELSE {9})}   \* long
-  \cup {<<Enc(15, l)>> : l \in Lens}                                                                 \* no location
+  \cup {LE(<<Enc(15, l)>>, 0, TRUE, l, 0, None, None) : l \in Lens}                                                  \* no location
+LocEntries == {i.b : i \in LocIntents}
 
 Entries(f) == IF IsLoc(f) THEN LocEntries ELSE IF f = "lines310" THEN Entries310 ELSE LnotabEntries
 (* bytecode covered by one entry.  Range formats cover the code exactly.  Before 3.8 the compiler never emits *)
@@ -40,17 +46,23 @@ Entries(f) == IF IsLoc(f) THEN LocEntries ELSE IF f = "lines310" THEN Entries310
 (* well-formed 1.5-3.7 table extends beyond the last address; for 3.8/3.9 the code length is free.            *)
 Covers(f, e) == IF IsLoc(f) THEN 2 * LocLen(e[1]) ELSE IF f = "lnotab_sc" THEN 0 ELSE e[1]
 
-Init == /\ fmt \in Fmts /\ tab = <<>> /\ n = 0 /\ done = FALSE
+Init == /\ fmt \in Fmts /\ tab = <<>> /\ n = 0 /\ done = FALSE /\ intent = <<>> /\ wline = 7000
         /\ first = 7000                     \* large enough that no generated delta sequence makes a line negative
         /\ clen \in (IF fmt = "lnotab_sc" THEN {8, 40} ELSE IF IsLnotab(fmt) THEN {2} ELSE {0})
 
 MaxLen == IF IsLoc(fmt) THEN Cfg.maxloc ELSE Cfg.maxlen
 Add == /\ ~done /\ n < MaxLen
-       /\ \E e \in Entries(fmt) : tab' = tab \o e /\ clen' = clen + Covers(fmt, e)
+       /\ IF IsLoc(fmt)
+          THEN \E i \in LocIntents :
+                 /\ tab' = tab \o i.b /\ clen' = clen + 2 * i.n /\ wline' = wline + i.d
+                 /\ intent' = intent \o [u \in 1..i.n |-> IF i.nl THEN <<None, None, None, None>>
+                                                             ELSE <<wline + i.d, wline + i.d + i.el, i.c1, i.c2>>]
+          ELSE /\ \E e \in Entries(fmt) : tab' = tab \o e /\ clen' = clen + Covers(fmt, e)
+               /\ UNCHANGED <<intent, wline>>
        /\ n' = n + 1 /\ UNCHANGED <<fmt, first, done>>
 (* range tables must end with a non-empty range and cover some code *)
 WellFormed == IsLnotab(fmt) \/ (clen > 0 /\ (fmt = "lines310" => tab[Len(tab) - 1] # 0))
-Finish == ~done /\ WellFormed /\ done' = TRUE /\ UNCHANGED <<fmt, tab, clen, first, n>>
+Finish == ~done /\ WellFormed /\ done' = TRUE /\ UNCHANGED <<fmt, tab, clen, first, n, intent, wline>>
 Next == Add \/ Finish
 Spec == Init /\ [][Next]_vars
 
@@ -67,6 +79,13 @@ EmptyTable == (done /\ tab = <<>> /\ IsLnotab(fmt)) => S = << <<0, first>> >>
 LinesPositive == done => \A i \in 1..Len(S) : S[i][2] = None \/ S[i][2] > 0
 CutoffOnlyIn38 == (done /\ fmt = "lnotab_s") => Len(Starts("lnotab_sc", tab, clen, first)) <= Len(S)
 UnsignedNeverDecreases == (done /\ fmt = "lnotab_u") => \A i \in 1..(Len(S) - 1) : S[i][2] < S[i + 1][2]
+
+(* writer o reader round trip for the location table: the positions of every code unit are what the writer meant *)
+RECURSIVE UnitsFrom(_, _, _)
+UnitsFrom(f, t, st) == IF More(f, t, st)
+                       THEN LET r == Step(f, t, 0, st) IN [u \in 1..r.units |-> r.pos] \o UnitsFrom(f, t, r.s)
+                       ELSE <<>>
+LocRoundTrip == (done /\ IsLoc(fmt)) => UnitsFrom(fmt, tab, RInit(first)) = intent
 
 Export == (done /\ Cfg.export = 1) =>
             PrintT(<<"BEH", ToJson([fmt |-> fmt, tab |-> tab, clen |-> clen, first |-> first])>>)
